@@ -134,6 +134,10 @@ def run(ctx):
     # the dt the kernel is given is the stamp difference itself (C15's schema contract of compute_increments_from_imu, which
     # the convergence argument needs: an interval that is off by a fixed relative amount is an error that does not vanish)
     ctx.guard(C15._schema, ctx, py)
+    # the public route to the kernel is Integrator.integrate: its buffer-capacity / row-slice obligations (the kernel's
+    # precondition `offset + n_readings < len(buffers)` for every call history; C02) are re-established under this property
+    from props import C02 as _C02
+    ctx.guard(_C02._capacity_and_slices, ctx, py)
 
     # ---- glue: Integrator passes the right things to the kernel and returns its rows ----------
     ctx.guard(_glue, ctx, py)
